@@ -204,6 +204,9 @@ def gen_cases(tier, seed):
             if 'subs' not in t and rng.random() < 0.12:
                 t['subs'] = rng.choice([[{'only': ['on_progress']}], [{}, {'only': ['on_progress', 'on_done']}]])
     rng.shuffle(cases)
+    from ..gen import sprinkle
+
+    sprinkle(cases, seed)
     return cases
 
 
